@@ -88,6 +88,10 @@ def run_check(pid, tier="quick", seed=0, replay=None):
     rng = random.Random((seed << 8) ^ hash_pid(pid))
     work = os.path.join(core.BUILD, "run", pid)
     os.makedirs(work, exist_ok=True)
+    if not replay and os.path.isdir(core.REPLAYS):
+        for f in os.listdir(core.REPLAYS):
+            if f.startswith(pid + "-"):
+                os.unlink(os.path.join(core.REPLAYS, f))
     notes = []
     violations = []        # (replay_path, suffix, description)
     known_lines = []
